@@ -213,7 +213,15 @@ def resolve_type(name):
         return Response
     if name == "Stream":
         return CommandResponseStream
-    return type_table()[name]
+    try:
+        return type_table()[name]
+    except KeyError:
+        raise NoSuchType(name) from None
+
+
+class NoSuchType(Exception):
+    """a layout named by the pinned tables is not among the layouts reachable from /repo's tables any more: an observation about
+    /repo (`R no-such-type <name>`), not an infrastructure failure (seed C20k: a table row re-pointed, its layout orphaned)"""
 
 
 def make_source(kind, data):
@@ -248,7 +256,10 @@ def impl_dec(mode, tname, cc, enc, data, source="counting", unmarshal=False, roo
     """Run Binary.marshal on the real code; return canonical lines (events, then one R line).
     source: "counting" (pull counts are real) or another iterable kind (pull counts printed as 0).
     unmarshal: additionally re-encode the emitted events with Binary.unmarshal (lines U and S before R)."""
-    tp = resolve_type(tname)
+    try:
+        tp = resolve_type(tname)
+    except NoSuchType:
+        return [f"R no-such-type {tname}"]
     if source == "counting":
         it = CountingIter(data)
     else:
